@@ -7,7 +7,7 @@
    by a render cycle or by shutdown" made every request a blocking send of the
    container goroutine, which is what the fifo of this model describes. *)
 From Coq Require Import Permutation Sorted.
-From MPB Require Import Base BaseProofs BarState Container ContainerProofs ContainerCover GenChecks.
+From MPB Require Import Base BaseProofs BarState Container ContainerProofs ContainerCover GenConst.
 From MPB.gen Require Import GenApi.
 From Coq Require Import String.
 
